@@ -100,9 +100,9 @@ def formula_classes():
     return out
 
 
-def run_drag(gs, z):
+def run_drag(gs, z, alpha=1.0, M=1.0, gbe=1.0):
     gg = GrainGrowthModel()
-    gg.setGrainBoundaryMobility(1.0); gg.setGrainBoundaryEnergy(1.0); gg.setAlpha(1.0)
+    gg.setGrainBoundaryMobility(float(M)); gg.setGrainBoundaryEnergy(float(gbe)); gg.setAlpha(float(alpha))
     g = np.array([float(v) for v in gs])
     keep = g.copy()
     out = gg.constrainedGrowth(g, float(z))
